@@ -236,7 +236,8 @@ NO_OK_QUERIES = ("A", "I", "MR", "PI", "QM", "QG", "V")      # documented single
 class LegacyBoard:
     """Firmware 2.x syntax: commands answer OK, queries answer data (+ OK for most)."""
 
-    def __init__(self, version="2.8.1", banner=None, nickname="", layer=0):
+    def __init__(self, version="2.8.1", banner=None, nickname="", layer=0, rb_ack=False):
+        self.rb_ack = rb_ack            # a board that acknowledges RB / BL before it restarts
         self.version = version
         self.banner = banner if banner is not None else \
             (None if version is None else "EBBv13_and_above EB Firmware Version " + version)
@@ -298,7 +299,7 @@ class LegacyBoard:
                 pass
             return ["OK"]
         if name in ("RB", "BL"):
-            return []                   # the board drops off the bus
+            return ["OK"] if self.rb_ack else []    # acknowledges, or drops off the bus at once
         return ["OK"]
 
 
